@@ -1620,6 +1620,7 @@ class ContractionTree:
         # have this cached yet, it is needed *before* the leaves are updated
         for node in tree.children:
             tree.get_involved(node)
+            tree.get_legs(node)
 
         d = tree.size_dict[ind]
         if project is None:
